@@ -60,6 +60,10 @@ C["C14"] = dict(
 C["C15"] = dict(
     text="real SessionManager pool code (GetStream/PutBack, getOrOpenStream/putOrCloseStream/push/pop) on a real pair with an echoing callback server: (a) every history up to depth 5 (quick) / 6 (thorough) over {GetStream by caller a/b, full use, write without reading, read, PutBack a/b, peer closes the stream, late response on a pooled stream, write that goes by socket fallback, session lost} for pool capacities 1 and 2, each operation run to quiescence, plus longer two-caller histories around the capacity; (b) two concurrent callers doing two Get/use/PutBack rounds, with and without a peer closing streams, every schedule with <= 1 (quick) / <= 2 (thorough) deviations; oracles at every hand-out: open, live session, no buffered or pending byte of an earlier use, not held by the other caller; at the end active streams == held + pooled",
     note=NOTE_B + "; histories run on the default schedule (0 deviations)", technique=TECH_B + " + bounded-exhaustive operation histories", design="DESIGN.md section 4 C15")
+C["C12"] = dict(
+    text="the real newSession on both ends of a real connection under the scheduler with virtual time (handshake not in the quiet phase). Success pairings unix+memfd (protocol 3), unix+file (protocol 2 initializer), tcp+file; tcp+memfd must be refused on both ends: both ends return nil, agree on the expected version, share one memory (queue elements cross over through the two separate queue mappings in both directions; a 40-byte message and a 7-byte answer travel through the buffers without socket fallback; each process keeps its own buffer-manager table, so the server really maps the memory a second time) and release everything on Close. Failure enumeration: for mapping in {memfd,file} x dying role in {client,server} x {falls silent, descriptors closed} the peer process stops at ANY scheduling point of the exchange (the fault is one deviation; <= 1 (quick) / <= 2 (thorough) deviations in total); oracles: the survivor's newSession returns no later than the virtual initialization timeout (+50 ms), nothing panics, and nothing that is not the dead process's own is left: per-process buffer-manager table empty, no descriptor (ownership tracked at memfd_create / SCM_RIGHTS / dup), no /dev/shm file of a surviving client",
+    note=NOTE_B + "; byte-level cuts inside one message are not produced (a process stops between syscalls, and the handshake messages are written by single write calls); version negotiation is exercised only for the versions this code base speaks (2 via the file initializer, 3 via the exchange); the leaked duplicate of the connection on a failed handshake (D17) is a recorded known finding",
+    technique=TECH_B + " with the peer-death fault schedulable at every point", design="DESIGN.md section 4 C12")
 NA = {}
 m = {
     "version": 1,
